@@ -59,8 +59,13 @@ func (m *Map[K, V]) Get(key K) (value V, found bool) {
 func (m *Map[K, V]) Remove(key K) {
 	if _, contains := m.table[key]; contains {
 		delete(m.table, key)
-		index := m.ordering.IndexOf(key)
-		m.ordering.Remove(index)
+		it := m.ordering.Iterator()
+		for it.Next() {
+			if it.Value() == key {
+				m.ordering.Remove(it.Index())
+				break
+			}
+		}
 	}
 }
 
